@@ -482,7 +482,83 @@ def moments_case(ctx, rng, idx):
                            'quadrature': [m1_ / m0, sd_q]}, feats)
 
 
+def covariate_columns_case(ctx, rng, idx):
+    """composites with SEVERAL covariate-dependent sub-models: every
+    sub-model is sampled conditional on ITS OWN covariate columns.  The
+    covariate-dependent sub-models are pooled (or centred with a tiny scale),
+    so every sampled entry is determined by the covariates it depends on."""
+    n_sub = int(rng.integers(2, 5))
+    models, spec, top = [], [], []
+    n_cov_total = 0
+    for j in range(n_sub):
+        kind = 'PGLTN'[int(rng.integers(5))]
+        if j < 2 and kind == 'N':
+            kind = 'P'          # at least two covariate-dependent ones
+        if kind == 'N':
+            # a plain sub-model in between
+            models.append(chi.PooledModel())
+            spec.append(('N', 0, None, None))
+            top += [float(rng.uniform(1, 2))]
+            continue
+        n_cov = int(rng.integers(1, 3))
+        under = {'P': chi.PooledModel, 'G': chi.GaussianModel,
+                 'L': chi.LogNormalModel,
+                 'T': chi.TruncatedGaussianModel}[kind]()
+        cpm = chi.CovariatePopulationModel(
+            under, chi.LinearCovariateModel(n_cov=n_cov))
+        if kind != 'P':
+            cpm.set_population_parameters([[0, 0]])
+        if rng.random() < 0.3:
+            cpm = chi.ReducedPopulationModel(cpm)
+        a0 = float(rng.uniform(1, 2))
+        beta = rng.uniform(0.3, 1.0, size=n_cov)
+        top += {'P': [a0], 'G': [a0, 1e-6], 'T': [a0, 1e-6],
+                'L': [float(np.log(a0)), 1e-7]}[kind] + list(beta)
+        models.append(cpm)
+        spec.append((kind, n_cov, a0, beta))
+        n_cov_total += n_cov
+    pop = chi.ComposedPopulationModel(models)
+    n = int(rng.integers(1, 9))
+    cov = rng.uniform(0, 3, size=(n, n_cov_total))
+    feats = {'family': 'covariate_columns',
+             'sub_models': ''.join(k for k, _, _, _ in spec), 'n_samples': n}
+    ctx.case(('covariate_columns', feats['sub_models'], min(n, 3)), True,
+             sample=dict(feats, covariates=cov, parameters=top))
+    try:
+        psi = np.asarray(pop.sample(
+            top, n_samples=n, seed=int(rng.integers(1000)),
+            covariates=cov if rng.random() < 0.5 else cov.tolist()),
+            dtype=float)
+    except Exception as e:      # noqa
+        ctx.violation_exc('sample_raises', e, {'case': feats}, feats)
+        return
+    ctx.count('covariate_column_samples', n)
+    if psi.shape != (n, n_sub):
+        ctx.violation('sample_shape', 'sample_shape:covariate_columns',
+                      {'shape': psi.shape}, feats)
+        return
+    c0 = 0
+    for j, (kind, n_cov, a0, beta) in enumerate(spec):
+        if kind == 'N':
+            continue
+        lin = cov[:, c0:c0 + n_cov] @ beta
+        want = np.exp(np.log(a0) + lin) if kind == 'L' else a0 + lin
+        c0 += n_cov
+        if np.max(np.abs(psi[:, j] - want) / (1 + np.abs(want))) > 1e-4:
+            first = cov[:, :n_cov] @ beta
+            ctx.violation(
+                'samples_conditional_on_own_covariates',
+                'covariate_columns_of_another_sub_model',
+                {'sub_model': j, 'kind': kind, 'sampled': psi[:, j],
+                 'expected': want,
+                 'with_the_first_columns': np.exp(np.log(a0) + first)
+                 if kind == 'L' else a0 + first}, feats)
+            return
+
+
 FAMILIES = [
+    Family('covariate_columns', covariate_columns_case, quick=60,
+           thorough=600),
     Family('error_model', error_model_case, quick=64, thorough=480),
     Family('population', population_case, quick=80, thorough=600),
     Family('moments', moments_case, quick=64, thorough=600),
